@@ -24,7 +24,8 @@
   observable and is part of `rxBegin`.
 
   GHOST HISTORY (written by steps, never read by the non-ghost part of a step): accepted, acceptedKept, truncations,
-  calls, firstAttempts, retryCalls, lastReturned, callsPerBatch, fired, registered, dropped, obligations, finalised,
+  calls, firstAttempts, retryCalls, lastReturned, callsPerBatch, fired, firedTake, registered, registeredTake, dropped,
+  obligations, acceptedAt, finalised,
   waits, batchWaits, tornDown, pendingAtTeardown.
 
   Items and watcher ids are natural numbers chosen by the environment (the theorems hold for any choice; the
@@ -139,10 +140,13 @@ structure St where
   retryCalls : List (List Nat × List Nat)
   lastReturned : List Nat
   callsPerBatch : List Nat
-  fired : List Nat
+  fired : List Nat            -- flush callbacks that ran (ids of `whenFlushed`)
+  firedTake : List Nat        -- `when_empty` callbacks that ran (ids of `whenEmpty`; a separate name space)
   registered : List Nat
+  registeredTake : List Nat
   dropped : List Nat
-  obligations : List (Nat × List Nat)
+  obligations : List (Nat × List Nat)   -- (w, pending ++ in flight) at the registration of flush watcher w
+  acceptedAt : List (Nat × List Nat)    -- (w, everything accepted so far) at the registration of flush watcher w
   finalised : List Nat
   waits : List Nat
   batchWaits : List Nat
@@ -156,8 +160,9 @@ def init : St :=
     rx := .idle, retryCur := 0, retryDelay := 0, idleDelay := 0, senderAlive := true,
     mTruncated := 0, mProcessed := 0, mFailed := 0, mPanicked := 0, mRetry := 0,
     accepted := [], acceptedKept := [], truncations := [], calls := [], firstAttempts := [],
-    retryCalls := [], lastReturned := [], callsPerBatch := [], fired := [], registered := [], dropped := [],
-    obligations := [], finalised := [], waits := [], batchWaits := [], tornDown := false,
+    retryCalls := [], lastReturned := [], callsPerBatch := [], fired := [], firedTake := [], registered := [],
+    registeredTake := [], dropped := [],
+    obligations := [], acceptedAt := [], finalised := [], waits := [], batchWaits := [], tornDown := false,
     pendingAtTeardown := [] }
 
 /-- Result of `try_send` (lib.rs:205-220): `Ok`, `Err(retry(.., msg))`, `Err(no_retry(..))`. -/
@@ -195,15 +200,16 @@ def trySend (cfg : Cfg) (s : St) (x : Nat) : St × TryRes :=
 
 /-- `Sender::when_empty` (lib.rs:263-277). -/
 def whenEmpty (s : St) (w : Nat) : St :=
-  let s := { s with registered := s.registered ++ [w] }
-  if s.pending.isEmpty then { s with fired := s.fired ++ [w] }
+  let s := { s with registeredTake := s.registeredTake ++ [w] }
+  if s.pending.isEmpty then { s with firedTake := s.firedTake ++ [w] }
   else { s with pendTakeW := s.pendTakeW ++ [w] }
 
 /-- `Sender::when_flushed` (lib.rs:284-303). Ghost: the obligation of `w` is everything accepted and not yet
     through its final attempt at this instant. -/
 def whenFlushed (s : St) (w : Nat) : St :=
   let s := { s with registered := s.registered ++ [w],
-                    obligations := s.obligations ++ [(w, s.pending ++ s.rx.inflight)] }
+                    obligations := s.obligations ++ [(w, s.pending ++ s.rx.inflight)],
+                    acceptedAt := s.acceptedAt ++ [(w, s.accepted)] }
   if !s.inBatch && (s.pending.isEmpty || !s.isOpen) then { s with fired := s.fired ++ [w] }
   else { s with pendFlushW := s.pendFlushW ++ [w] }
 
@@ -223,7 +229,7 @@ def rxTake (s : St) : Option St :=
 def rxBegin (cfg : Cfg) (s : St) : Option St :=
   match s.rx with
   | .taken b tw fw wasOpen =>
-    let s := { s with fired := s.fired ++ tw }                                   -- notify_on_take
+    let s := { s with firedTake := s.firedTake ++ tw }                           -- notify_on_take
     if b.length > 0 then
       some { s with retryCur := 0, retryDelay := 0, idleDelay := 0,              -- resets (399-402)
                     rx := .processing b b fw,                                    -- on_batch(batch) (412)
